@@ -65,14 +65,15 @@ def spec_restart(draw, tier):
     return {"z": {"vars": vs, "biases": bs}, "tf": tf, "T": T, "K": K, "traj": traj,
             "fsys": [[rnd(draw(fl(-4, 4)), 2) for _ in range(n)] for _ in range(T + 1)],
             "binary": draw(st.booleans()), "channel": draw(st.sampled_from(["file", "file", "string", "buffer"])),
-            "gauss": [rnd(draw(fl(-2, 2)), 3) for _ in range(8)], "first": draw(st.sampled_from([0, 0, 0, 7]))}
+            "gauss": [rnd(draw(fl(-2, 2)), 3) for _ in range(8)], "first": draw(st.sampled_from([0, 0, 0, 7])),
+            "rep0": draw(st.integers(0, 3)) == 0}
 
 
 def has_kind(z, kind):
     return any(b["kind"] == kind for b in z["biases"])
 
 
-def segment(spec, t0, t1, pre=(), post=(), save_after=None, rfreq=None):
+def segment(spec, t0, t1, pre=(), post=(), save_after=None, rfreq=None, repeat_first=False):
     z = spec["z"]
     nat = len(z["vars"]) + 1
     L = cvz.header(nat, spec["tf"], temperature=300.0)
@@ -96,6 +97,9 @@ def segment(spec, t0, t1, pre=(), post=(), save_after=None, rfreq=None):
         L.append(cvz.pos_line_z(xs, nat))
         L.append(cvz.fsys_line_z(spec["fsys"][t], nat))
         L.append("step")
+        if repeat_first and t == t0:
+            # the engine evaluates the first step of the new run twice ("run 0" followed by "run N")
+            L += ["newrun", cvz.pos_line_z(xs, nat), cvz.fsys_line_z(spec["fsys"][t], nat), "step"]
         if save_after is not None and t == save_after:
             L.append("savestr")
     L.extend(post)
@@ -160,7 +164,7 @@ def _check_restart(spec, ctx):
         load = "loadbuf %s" % r1.of("savebuf")[0]["hex"]
         saved_text = None
     # segment 2: fresh process, load, immediately save (round trip), continue
-    case2 = segment(spec, K, T, pre=[load, "savestr"], post=["savestr"])
+    case2 = segment(spec, K, T, pre=[load, "savestr"], post=["savestr"], repeat_first=bool(spec.get("rep0")))
     r2 = run_case(case2)
     full_case = caseA + "\n# ---- segment 1 ----\n" + case1 + "\n# ---- segment 2 (fresh process) ----\n" + case2
     if r2.crashed:
@@ -220,7 +224,7 @@ def _check_restart(spec, ctx):
     cls = (kinds, vkinds, "tf%d" % spec["tf"], fmt_)
     strata = ["bias:" + b["kind"] for b in z["biases"]] + ["fmt:" + fmt_, "tf%d" % spec["tf"]] + \
         (["K0"] if K == 0 else []) + (["KT"] if K == T else []) + (["ext"] if any(v["ext"] for v in z["vars"]) else []) + \
-        (["periodic"] if any(v["periodic"] for v in z["vars"]) else [])
+        (["periodic"] if any(v["periodic"] for v in z["vars"]) else []) + (["first_step_twice"] if spec.get("rep0") else [])
     return Outcome(True, nontrivial=nontrivial, cls=cls, strata=strata, case_text=full_case)
 
 
